@@ -195,3 +195,37 @@ REPLAYS = [
     ("C13", "flat_map stage 2 calls neither fn nor error_fn", "replay/c13_flatmap_error_fn_after_flatten.py"),
     ("C13", "once flattened, error_fn no longer applies", "replay/c13_flatmap_error_fn_after_flatten.py"),
 ]
+
+
+# ---- activation nested inside this thread's own cancel() of the derived future -------------------------------------------------
+# self.cancel() holds self._me_lock and asks the delegate to cancel; the delegate's cancel() runs the delegate's done-callbacks
+# synchronously - among them this function.  Whatever it does to self, self's own done-callbacks must not run before the outer
+# cancel() has let go of the lock (obligation `requires _me_invoke_callbacks` from contracts/base.py).
+from .base import reentrant_cancel_context
+
+
+def _setup_nested(cls_name):
+    base = _setup_resolved(cls_name)
+
+    def setup(engine, st):
+        args, kw, ctx = base(engine, st)
+        st.assume(ctx["d_cancelled"])          # callbacks run synchronously inside delegate.cancel() only when it cancelled the delegate
+        st.assume(Val.is_intv(st.get("_me_cancelling", ctx["sid"])))
+        reentrant_cancel_context(engine, st, ctx["self"])
+        ctx["depth0"] = st.get("_me_cancelling", ctx["sid"])
+        return args, kw, ctx
+    return setup
+
+
+def _post_nested(engine, st, ctx, out):
+    sid = ctx["sid"]
+    return [("no exception escapes the done-callback", "EX", not isinstance(out, Raise), ["C18", "C04"]),
+            ("nested in own cancel(): the derived future ends cancelled; no user function is called; the cancel-in-progress counter is untouched", "PC",
+             z3.And(st.cancelled(sid), z3.BoolVal(len(user_calls(st)) == 0), st.get("_me_cancelling", sid) == ctx["depth0"]), ["C04", "C03", "C02"])]
+
+
+for _c in ("MapFuture", "FlatMapFuture", "ThrottleFuture"):
+    UNITS.append(Unit("%s._delegate_resolved[nested in own cancel()]" % _c, "map.MapFuture._delegate_resolved", ["C04", "C02", "C03", "C18"],
+                      _setup_nested(_c), _post_nested, cfg=_cfg, self_cls=_c))
+REPLAYS += [("C04", "nested in own cancel()", "replay/c04_sibling_cancel_callbacks.py"), ("C02", "nested in own cancel()", "replay/c04_sibling_cancel_callbacks.py"),
+            ("C04", "requires _me_invoke_callbacks", "replay/c04_sibling_cancel_callbacks.py"), ("C02", "requires _me_invoke_callbacks", "replay/c04_sibling_cancel_callbacks.py")]
